@@ -19,7 +19,9 @@ PROPS["C16"] = {
                     "cases sharing their first document, first separator and reader are executed by the same shard, so the prefix memo sees every pair of cases "
                     "that share a consumed prefix",
                     "built with the repository's Arduino stubs (extras/tests/Helpers) and ARDUINOJSON_ENABLE_ARDUINO_{STRING,STREAM,PRINT}=1, ENABLE_PROGMEM=1"],
-    "quick": [{"src": "checks/ix_stream.cpp", "mode": "stream", "arduino": True, "deps": ["checks/ix_stream.hpp"]}],
-    "thorough": [{"src": "checks/ix_stream.cpp", "mode": "stream", "arduino": True, "deps": ["checks/ix_stream.hpp"]}],
+    "quick": [{"src": "checks/ix_stream.cpp", "mode": "stream", "arduino": True, "deps": ["checks/ix_stream.hpp"]},
+              {"src": "checks/ix_stream.cpp", "mode": "stream", "arduino": True, "deps": ["checks/ix_stream.hpp"], "defs": ["ARDUINOJSON_USE_DOUBLE=0"]}],
+    "thorough": [{"src": "checks/ix_stream.cpp", "mode": "stream", "arduino": True, "deps": ["checks/ix_stream.hpp"]},
+                 {"src": "checks/ix_stream.cpp", "mode": "stream", "arduino": True, "deps": ["checks/ix_stream.hpp"], "defs": ["ARDUINOJSON_USE_DOUBLE=0"]}],
     "thorough_deadline": 860,
 }
